@@ -127,6 +127,7 @@ def swap_shell(ck, prog, kinds, oi, ai):
         nf = tledger_after(p, 'collected_protocol_fees')
         out = total(eff, 'send', A) + total(eff, 'burn', A)
         R_a = b[ai] - f[ai]
+        curve_params_obligation(ck, p, tag)
         ck.oblige('C04.swap.solvent.' + tag, p, z3.Or(out > b[ai], nf[ai] > b[ai] - out, (b[ai] - out) - nf[ai] < 0), 'the pool can pay what it sends and still holds reserves + pending fees')
         # dy = dest - y - 1 and return + fees = dy: out + protocol + swap_fee = dy where swap fee stays: so out + (nf-f) <= dy = R_a - y - 1
         inv5 = [zint(x) for x in (st['amps'][0], st['amps'][1], z3.Int('height'), st['amps'][2], st['amps'][3])]
@@ -291,4 +292,4 @@ from engine.core import Interp, Ctx
 from engine.models_cw import World
 
 if __name__ == '__main__':
-    sys.exit(main())
+    sys.exit(run_main(main))
